@@ -4,6 +4,7 @@ import CfbVerif.Phys.Codec
 import CfbVerif.Phys.DifatBack
 import CfbVerif.Phys.EntryBack
 import CfbVerif.Phys.OpenBack
+import CfbVerif.Phys.MiniFitReach
 import CfbVerif.Phys.LookupBack
 import CfbVerif.Phys.WalkBack
 /-!
@@ -202,6 +203,35 @@ theorem C02_reopens (v4 : Bool) (ops : List GOp) (s : Dir.State) (m : Raw.Mode) 
   have mk := (mk_grun_reachable v4 ops hb).1
   have hn : g.p.numSectors ≤ MAXREG := by rw [← j.inv.fat.size]; exact hfs
   exact open_reads_back_dir s j jm mk (gs.ss (ss_create v4)) (gs.cap (cap_create v4)) sw hn mf m wf rb nd hcap hcapN hmod
+
+/-- **`MiniFit` is an invariant**: in every state the store machine reaches from a fresh file (writes
+starting at or before the end of their stream, as a handle's do; MiniFAT below 2³² cells) the
+in-memory MiniFAT is trimmed, fits its chain, holds 32-bit cells, and the mini stream is exactly 64
+bytes per cell long — `Phys/MiniFitA.lean` for the three clauses about the MiniFAT itself,
+`Phys/MiniCap.lean` for "fits its chain", which rests on the no-sharing / no-leak invariant of the
+FAT: the MiniFAT chain never gets shorter because nothing that is freed or cut lies on it (on a
+damaged file that is false, and `set_minifat` used to assert it: F20) -/
+theorem C02_minifit_reachable (v4 : Bool) (ops : List GOp) :
+    let g0 : G := { p := Phys.create v4, L := fun _ => 0 }
+    WritesInRange g0 ops → MiniBounded g0 ops → (grun g0 ops).p.fat.size ≤ MAXREG + 1 →
+    MiniFit (grun g0 ops).p ∧ (grun g0 ops).p.rootLen % Gen.MINI_SECTOR_LEN = 0 :=
+  miniFit_reachable v4 ops
+
+/-- **the rendered image reopens — without the `MiniFit` hypothesis**: `C02_reopens` for every state
+the store machine reaches by histories whose writes start at or before the end of their stream;
+what is left as hypothesis is the coupling with the directory model (the rows are encodable and
+sit in distinct slots of the directory chain) and the size bounds -/
+theorem C02_reopens_reachable (v4 : Bool) (ops : List GOp) (s : Dir.State) (m : Raw.Mode) :
+    let g0 : G := { p := Phys.create v4, L := fun _ => 0 }
+    let g := grun g0 ops
+    g.p.fat.size ≤ MAXREG → WritesInRange g0 ops → MiniBounded g0 ops →
+    SlotsWf g.p (slotsOf g.p (dirtable s)) →
+    s.top.WF → (m.isStrict = true → RBAll s.top) →
+    (0 :: s.top.slots).Nodup → (∀ x ∈ 0 :: s.top.slots, x < dirCap g.p) → dirCap g.p ≤ NOSTREAM →
+    openImg m (render g.p (dirtable s)) = .ok (rawOf g.p (dirtable s)) := by
+  intro g0 g hfs hw hm sw wf rb nd hcap hcapN
+  have mf := miniFit_reachable v4 ops hw hm (Nat.le_succ_of_le hfs)
+  exact C02_reopens v4 ops s m hfs hm sw mf.1 wf rb nd hcap hcapN mf.2
 
 /-- **…and exposes the same tree**: on the state `open` returns for the rendered image (`rawOf`,
 by `C02_reopens`), the reader model's path resolution — `stream_id_for_name_chain`: one search-tree
